@@ -377,7 +377,22 @@ class SRun:
                 r0, _ = w.sessions[sn].do("NOOP")
                 if r0 is not None and r0.typ == "OK" and sn in self.fcache:
                     fc_saved[sn] = list(self.fcache[sn])
-        obs = h.observe_store("O")
+        # a phase that creates, deletes or renames mailboxes is judged on the mailbox list the server shows afterwards (LIST), not on
+        # the names the reference knew before it: a name that should be gone but is still listed, or the other way round, shows
+        ns_ops = any(e["op"] in ("create", "delete", "rename") for evs_ in cmds.values() for e in evs_)
+        self.ns_judged = ns_ops
+        if ns_ops:
+            o_ = h.sess("O")
+            o_.on_resp = None
+            r_, resps_ = o_.do('LIST "" "*"')
+            listed_ = []
+            for x in resps_:
+                if x.kind == "untagged" and x.typ == "LIST" and len(x.data) >= 3 and "\\Noselect" not in [str(a_) for a_ in (x.data[0] or [])]:
+                    nm_ = x.data[2]
+                    listed_.append(bytes(nm_).decode("latin-1") if isinstance(nm_, (bytes, bytearray)) else str(nm_))
+            obs = h.observe_store("O", names=sorted(set(listed_)))
+        else:
+            obs = h.observe_store("O")
         for name, rec in obs.items():
             if rec.get("exists"):
                 final_lists[name] = tuple((str(m["cid"]), tuple(sorted(norm_flags(m.get("flags", ()))))) for m in rec.get("msgs", []))
@@ -592,7 +607,7 @@ def normalise_model_sig(res_items, cmds):
     return out
 
 
-def judge(scn, sig_obs, model0, env_fired=()):
+def judge(scn, sig_obs, model0, env_fired=(), namespace=False):
     """Is the observed outcome one of the sequential outcomes?  Returns (ok, n_model_outcomes)."""
     cmds = dict(scn["concurrent"])
     if env_fired:
@@ -642,7 +657,7 @@ def judge(scn, sig_obs, model0, env_fired=()):
                 break
         if not ok:
             continue
-        fin_m = _norm((n, lst) for n, lst in fin if n in final_lists)
+        fin_m = _norm((n, lst) for n, lst in fin if (namespace or n in final_lists))
         if fin_m == fin_obs:
             return True, len(allowed)
     return False, len(allowed)
@@ -653,7 +668,7 @@ def run_one(unit):
     sr = SRun(scn, prefix)
     try:
         npoints, sig, model0 = sr.run()
-        ok, nmodel = judge(scn, sig, model0, getattr(sr, "env_fired", ()))
+        ok, nmodel = judge(scn, sig, model0, getattr(sr, "env_fired", ()), namespace=getattr(sr, "ns_judged", False))
         if not ok:
             sr.fail("C10.not-linearizable", {"cmds": [f"{sn}:{ev['op']}" for sn, evs in sorted(scn["concurrent"].items()) for ev in evs]},
                     f"one of {nmodel} sequential outcomes", {"results": sig[0], "final": {k: list(v) for k, v in sig[1].items()}})
